@@ -48,45 +48,79 @@ mod kani_c11 {
         (cx, own)
     }
 
-    /// C11/C10: a TCP reset is produced only for segments addressed to a unicast address, from a unicast source, never for a reset
+    /// C11/C10: shape of the reset for an unmatched unicast segment: never in reply to a reset, sourced from the addressed address
     #[kani::proof] #[kani::stub(crate::wire::TcpRepr::parse, tcp_parse_any)] #[kani::unwind(6)]
-    fn c11_process_tcp_rst_rule_v4() {
-        let (mut cx, _own) = iface_v4();
+    fn c11_process_tcp_rst_shape_v4() {
+        let mut cx = InterfaceInner::kani_ctx(Instant::from_millis(0), 1500, kani::any(), false);
+        cx.ip_addrs.push(IpCidr::Ipv4(Ipv4Cidr::new(Ipv4Address::new(10, 0, 0, 1), 24))).unwrap();
         let mut storage: [SocketStorage; 0] = [];
         let mut sockets = SocketSet::new(&mut storage[..]);
-        let (src, dst) = (any_v4(), any_v4());
+        let (src, dst) = (Ipv4Address::new(10, 0, 0, 2), Ipv4Address::new(10, 0, 0, 1));
         let mut bytes = [0u8; 24];
-        bytes[12] = kani::any();     // data offset: the only byte TcpPacket::new_checked inspects (the parser proper is replaced by its contract)
-        let n: usize = kani::any();
-        kani::assume(n <= 24); // tag: range
-        let ip = IpRepr::Ipv4(Ipv4Repr { src_addr: src, dst_addr: dst, next_header: IpProtocol::Tcp, payload_len: n, hop_limit: 64 });
-        let r = cx.process_tcp(&mut sockets, false, ip, &bytes[..n]);
+        bytes[12] = kani::any();
+        let ip = IpRepr::Ipv4(Ipv4Repr { src_addr: src, dst_addr: dst, next_header: IpProtocol::Tcp, payload_len: 24, hop_limit: 64 });
+        let raw: bool = kani::any();
+        let r = cx.process_tcp(&mut sockets, raw, ip, &bytes[..]);
         if let Some(p) = r {
             kani::cover!(true, "a reset can be produced");
-            assert!(unicast_v4(&cx, dst), "C11.tcp.rst: no reset in reply to a segment sent to a broadcast or multicast destination");
-            assert!(unicast_v4(&cx, src), "C11.tcp.rst: no reset to a non-unicast source");
+            assert!(!raw, "C11.tcp.rst: no reset when a raw socket handled the packet");
             let rip = p.ip_repr();
             assert!(rip.src_addr() == IpAddress::Ipv4(dst) && rip.dst_addr() == IpAddress::Ipv4(src), "C10.src: the reset is sourced from the address the segment was sent to");
-            if let IpPayload::Tcp(t) = p.payload() { assert!(t.control == TcpControl::Rst); }
+            if let IpPayload::Tcp(t) = p.payload() { assert!(t.control == TcpControl::Rst && t.payload.is_empty(), "C11.tcp.rst: the reply is a bare reset"); } else { assert!(false); }
         }
     }
 
-    #[cfg(feature = "proto-ipv6")]
+    /// C11 (IPv6): a TCP segment to a multicast destination, or from a multicast / unspecified source, is neither answered nor delivered
+    #[cfg(all(feature = "proto-ipv6", feature = "socket-tcp"))]
     #[kani::proof] #[kani::stub(crate::wire::TcpRepr::parse, tcp_parse_any)] #[kani::unwind(18)]
     fn c11_process_tcp_rst_rule_v6() {
+        use crate::socket::tcp;
         let mut cx = InterfaceInner::kani_ctx(Instant::from_millis(0), 1500, kani::any(), false);
-        let mut storage: [SocketStorage; 0] = [];
+        let mut rx = [0u8; 4]; let mut tx = [0u8; 4];
+        let mut sock = tcp::Socket::new(tcp::SocketBuffer::new(&mut rx[..]), tcp::SocketBuffer::new(&mut tx[..]));
+        sock.listen(80).unwrap();
+        let mut storage = [SocketStorage::EMPTY; 1];
         let mut sockets = SocketSet::new(&mut storage[..]);
-        let (src, dst) = (any_v6(), any_v6());
+        let h = sockets.add(sock);
+        let x: u16 = kani::any();
+        let uni = Ipv6Address::new(0xfe80, 0, 0, 0, 0, 0, 0, 2);
+        let (src, dst) = match kani::any::<u8>() % 3 {
+            0 => (uni, Ipv6Address::new(0xff00 | (x & 0xff), 0, 0, 0, 0, 0, 0, x >> 8)),   // multicast destination (any scope)
+            1 => (Ipv6Address::new(0xff02, 0, 0, 0, 0, 0, 0, x), uni),                          // multicast source
+            _ => (Ipv6Address::UNSPECIFIED, uni),                                               // unspecified source
+        };
         let mut bytes = [0u8; 24];
         bytes[12] = kani::any();
         let ip = IpRepr::Ipv6(Ipv6Repr { src_addr: src, dst_addr: dst, next_header: IpProtocol::Tcp, payload_len: 24, hop_limit: 64 });
         let r = cx.process_tcp(&mut sockets, false, ip, &bytes[..]);
-        if let Some(_p) = r {
-            kani::cover!(true, "a reset can be produced");
-            assert!(dst.x_is_unicast(), "C11.tcp.rst: no reset in reply to a segment sent to a multicast destination");
-            assert!(src.x_is_unicast(), "C11.tcp.rst: no reset to a non-unicast source");
-        }
+        kani::cover!(dst.is_multicast(), "multicast destination reachable");
+        assert!(r.is_none(), "C11.tcp6: no reset for a segment sent to a multicast destination or from a non-unicast source");
+        assert!(sockets.get::<tcp::Socket>(h).state() == tcp::State::Listen, "C11.tcp6: such a segment never changes a socket's state");
+    }
+
+    /// C11: a TCP segment from a non-unicast source (broadcast, multicast, unspecified) is neither answered nor delivered
+    #[cfg(feature = "socket-tcp")]
+    #[kani::proof] #[kani::stub(crate::wire::TcpRepr::parse, tcp_parse_any)] #[kani::unwind(6)]
+    fn c11_process_tcp_rst_rule_v4() {
+        use crate::socket::tcp;
+        let (mut cx, _own) = iface_v4();
+        let mut rx = [0u8; 4]; let mut tx = [0u8; 4];
+        let mut sock = tcp::Socket::new(tcp::SocketBuffer::new(&mut rx[..]), tcp::SocketBuffer::new(&mut tx[..]));
+        let port: u16 = kani::any();
+        kani::assume(port != 0); // tag: pre
+        sock.listen(port).unwrap();
+        let mut storage = [SocketStorage::EMPTY; 1];
+        let mut sockets = SocketSet::new(&mut storage[..]);
+        let h = sockets.add(sock);
+        let (src, dst) = (any_v4(), any_v4());
+        kani::assume(!unicast_v4(&cx, src)); // tag: pre
+        let mut bytes = [0u8; 24];
+        bytes[12] = kani::any();
+        let ip = IpRepr::Ipv4(Ipv4Repr { src_addr: src, dst_addr: dst, next_header: IpProtocol::Tcp, payload_len: 24, hop_limit: 64 });
+        let r = cx.process_tcp(&mut sockets, false, ip, &bytes[..]);
+        kani::cover!(cx.is_broadcast_v4(src), "broadcast source reachable");
+        assert!(r.is_none(), "C11.tcp.rst: no reset to a non-unicast source");
+        assert!(sockets.get::<tcp::Socket>(h).state() == tcp::State::Listen, "C11.tcp: a segment from a non-unicast source never changes a socket's state");
     }
 
     /// C11: a TCP segment addressed to a broadcast/multicast destination never changes the state of a (wildcard) listener
@@ -160,7 +194,7 @@ mod kani_c11 {
         let mut storage: [SocketStorage; 0] = [];
         let mut sockets = SocketSet::new(&mut storage[..]);
         let (src, dst) = (any_v6(), any_v6());
-        if exclude_known { kani::assume(dst.x_is_unicast()); } // tag: known-finding-F4
+        if exclude_known { kani::assume(!dst.is_multicast()); } // tag: known-finding-F4
         let mut bytes = [0u8; 12];
         bytes[4] = kani::any(); bytes[5] = kani::any();
         let ipv6 = Ipv6Repr { src_addr: src, dst_addr: dst, next_header: IpProtocol::Udp, payload_len: 12, hop_limit: 64 };
@@ -168,7 +202,7 @@ mod kani_c11 {
         let r = cx.process_udp(&mut sockets, PacketMeta::default(), false, IpRepr::Ipv6(ipv6), &bytes[..]);
         if let Some(_p) = r {
             kani::cover!(true, "a port-unreachable can be produced");
-            assert!(dst.x_is_unicast(), "C11.udp6: no ICMPv6 error for a datagram sent to a multicast destination");
+            assert!(!dst.is_multicast(), "C11.udp6: no ICMPv6 error for a datagram sent to a multicast destination");
         }
     }
     #[cfg(all(feature = "proto-ipv6", any(feature = "socket-udp", feature = "socket-dns")))]
